@@ -466,9 +466,13 @@ def program_guarded(rel, name):
     return res
 
 
-def let_bindings(rel, name):
-    """{ident: rhs text} for simple `let ident = ...;` bindings of the function (used to interpret guards)"""
+def let_bindings(rel, name, deep=False):
+    """{ident: rhs text} for simple `let ident = ...;` bindings of the function (used to interpret guards); deep: also those of the same-file helpers it calls
+    (bindings of the function itself win)"""
     body = fn_body(source(rel), name)
+    if deep:
+        full = fn_body_deep(source(rel), name)
+        body = full[len(body):] + '\n' + body
     out = {}
     for m in re.finditer(r'\blet\s+(?:mut\s+)?(\w+)(?:\s*:\s*[^=;]+)?\s*=\s*([^;]+);', body):
         out[m.group(1)] = re.sub(r'\s+', ' ', m.group(2)).strip()
